@@ -22,6 +22,7 @@ import (
 	"reflect"
 	"regexp"
 	"strings"
+	"sync"
 
 	"github.com/Query-farm/vgi-rpc-go/vgirpc"
 	"github.com/apache/arrow-go/v18/arrow"
@@ -83,6 +84,8 @@ func c08Exec(c *Case) {
 		switch f[0] {
 		case "sc", "rt", "wr", "wrx":
 			c08ExecLine(c, l, f)
+		case "cc":
+			c08ExecConcurrent(c, l, f)
 		case "rth": // a history: the maximal run of rth lines is serialized first, decoded afterwards
 			j := i
 			for j < len(c.Lines) && strings.HasPrefix(c.Lines[j], "rth ") {
@@ -94,6 +97,87 @@ func c08Exec(c *Case) {
 			c.Out(l, "err:bad-op")
 		}
 	}
+}
+
+// c08ExecConcurrent: first use of a struct type the process has never described, from many
+// goroutines released together: each derives the (memoized) schema and serializes the value; all
+// must see what a later, sequential call sees. A schedule search: it finds a race only when the
+// scheduler produces the interleaving. For the model the line is an ordinary round trip.
+func c08ExecConcurrent(c *Case, l string, f []string) {
+	tt, vt := c08SplitBar(f[1:])
+	ty, rest, err := c08ParseTy(tt)
+	if err != nil || len(rest) != 0 || ty.K != "st" {
+		c.Out(l, "err:script")
+		return
+	}
+	val, rest, err := c08ParseVal(ty, vt)
+	if err != nil || len(rest) != 0 {
+		c.Out(l, "err:script")
+		return
+	}
+	rv, err := c08Build(ty, val)
+	if err != nil {
+		c.Out(l, "err:script")
+		return
+	}
+	rt := ty.rtype()
+	const workers = 12
+	type res struct{ schema, row string }
+	results := make([]res, workers)
+	start := make(chan struct{})
+	var wg sync.WaitGroup
+	one := func() (r res) {
+		defer func() {
+			if p := recover(); p != nil {
+				r.row = fmt.Sprintf("panic: %v", p)
+			}
+		}()
+		s, err := vgirpc.VerifC08CachedSchema(rt)
+		switch {
+		case err != nil:
+			r.schema = "err:derive"
+		case s == nil:
+			r.schema = "nil-schema-without-error"
+		default:
+			r.schema = c08SchemaString(s)
+		}
+		data, err, pan := vgirpc.VerifC08Serialize(rv.Interface())
+		switch {
+		case pan != nil:
+			r.row = fmt.Sprintf("panic: %v", pan)
+		case err != nil:
+			r.row = "err:encode"
+		default:
+			b, err := c08ReadRow0(data)
+			if err != nil {
+				r.row = "err:ipc"
+			} else {
+				r.row = c08SchemaString(b.Schema()) + " " + c08RowString(b)
+				b.Release()
+			}
+		}
+		return r
+	}
+	for w := 0; w < workers; w++ {
+		wg.Add(1)
+		go func(w int) {
+			defer wg.Done()
+			<-start
+			results[w] = one()
+		}(w)
+	}
+	close(start)
+	wg.Wait()
+	seq := one()
+	c.Stat("concurrent-first-use")
+	for w, r := range results {
+		if r != seq {
+			c.Oracle("schema-differs-under-concurrency", fmt.Sprintf("%s: goroutine %d of %d on first use saw schema %q / row %q, a sequential call sees %q / %q", l, w, workers, r.schema, r.row, seq.schema, seq.row))
+			break
+		}
+	}
+	// the observation for the model: an ordinary round trip, after the dust has settled
+	c08ExecLine(c, l, append([]string{"rt"}, f[1:]...))
 }
 
 // c08ExecHistory: every value of the run is serialized (all returned byte strings kept), then
@@ -333,7 +417,7 @@ var c08PlainDecimal = regexp.MustCompile(`^[+-]?([0-9]+\.?[0-9]*|\.[0-9]+)$`)
 
 type c08TagInfo struct {
 	name, arrowType, elemType string
-	hasDefault               bool
+	hasDefault                bool
 }
 
 func c08ParseTag(tag string) c08TagInfo {
@@ -366,6 +450,7 @@ var c08WireInts = map[string]string{"int8": "i8", "int16": "i16", "int32": "i32"
 // c08ExpectLeaf: the canonical text a supported leaf must decode to; ok=false when the pair is not
 // in the supported family or the value is not representable in the wire type.
 func c08ExpectLeaf(kind, at string, v *c08Val) (string, bool) {
+	kind = c08Base(kind)
 	if strings.HasPrefix(at, "fixed_binary[") && strings.HasSuffix(at, "]") {
 		var w int
 		if _, err := fmt.Sscanf(at, "fixed_binary[%d]", &w); err != nil || w <= 0 || kind != "bytes" {
@@ -461,7 +546,7 @@ func c08ExpectLeaf(kind, at string, v *c08Val) (string, bool) {
 }
 
 func c08Zero(t *c08Ty) string {
-	switch t.K {
+	switch c08Base(t.K) {
 	case "ptr":
 		return "nil"
 	case "sl":
@@ -533,7 +618,7 @@ func c08Expect(t *c08Ty, at, et string, v *c08Val, depth int) (string, bool) {
 		}
 		return "[" + strings.Join(parts, ",") + "]", true
 	case "map":
-		if t.Key.K == "ptr" || !(t.Key.K == "str" || t.Key.K[0] == 'i' || t.Key.K[0] == 'u') {
+		if kk := c08Base(t.Key.K); t.Key.K == "ptr" || !(kk == "str" || kk[0] == 'i' || kk[0] == 'u') {
 			return "", false
 		}
 		if v.K == 'n' {
@@ -604,6 +689,9 @@ func c08ExpectTop(t *c08Ty, v *c08Val) (string, bool) { return c08ExpectStruct(t
 
 // c08DiffClass names the kind of the first leaf that differs (stable slug for known findings).
 func c08DiffClass(t *c08Ty, want, got string) string {
+	if c08HasNamed(t) {
+		return "roundtrip-named-type-with-methods"
+	}
 	kind := c08FirstDiffKind(want, got)
 	if kind == "time" { // refine by the wire type of the time-valued fields of the struct
 		wires := map[string]bool{}
